@@ -876,7 +876,15 @@ class Ref:
         if op == 'sign': return numpy.sign(C(0))
         if op == 'real': return numpy.real(C(0))
         if op == 'imag': return numpy.imag(C(0))
-        if op == 'greater': return numpy.greater(C(0), C(1))
+        if op in ('greater', 'less', 'equal'):
+            a, b = C(0), C(1)
+            if a.dtype.kind in 'fc' or b.dtype.kind in 'fc':
+                # two floating point values that agree to rounding error (for instance x and (x^-1)^-1) compare differently depending on how they were
+                # rounded: a discontinuity, not a statement about values. Exactly equal operands that are the same node are fine.
+                near = (abs(a - b) <= 1e-9 * (abs(a) + abs(b))) & ~((a == b) & (n['ch'][0] == n['ch'][1]))
+                if numpy.any(near & ((a != b) | (abs(a) + abs(b) > 0))):
+                    raise NonFinite('comparison of floating point values that are equal up to rounding')
+            return getattr(numpy, op)(a, b)
         if op == 'less': return numpy.less(C(0), C(1))
         if op == 'equal': return numpy.equal(C(0), C(1))
         if op == 'powc':
